@@ -24,11 +24,11 @@ import canon
 PROP = 'C01'
 THEOREMS = ['Lessm.Nest.C01_rules', 'Lessm.Nest.C01_no_parent', 'Lessm.Nest.C01_simple_selector', 'Lessm.Nest.flatList_plain_body']
 
-# compound selector kinds (no `*` joined to another simple selector, no 3/6-hex-digit id: open known findings)
+# compound selector kinds (no `*` joined to another simple selector: open known finding; ids of 3/6 hex digits are kept as written since the fix of C01-hex-id)
 COMPOUNDS = {
     'element': ['div', 'p', 'span', 'ul', 'li', 'a', 'h1', 'table', 'td'],
     'class': ['.a', '.b-c', '.k_2', '.x1'],
-    'id': ['#i', '#main', '#n-1', '#abcd'],
+    'id': ['#i', '#main', '#n-1', '#abcd', '#abc', '#fed', '#AbC', '#abcdef', '#012', '#00ff00'],
     'elclass': ['div.a', 'p.q.r', 'li.x1'],
     'pseudo': ['a:hover', '.a:first-child', 'li:last-child', '.b::before', 'p::first-line', 'a:link'],
     'attr': ['a[href]', '.a[x="1"]', 'input[type=text]', 'a[href^="http"]', '[data-x]'],
